@@ -38,6 +38,13 @@ NAME_FAMILIES = {
                          "struct Ov { void m(); void m(int); static int s(); Ov(); Ov(int); ~Ov(); };\n"
                          "template<class T, class U> struct Tm { T t; U *u; }; struct UsesTm { Tm<int, float> a; Tm<char, Tm<int,int> > b; };\n"
                          "struct Nest { struct In { int i; } in; enum E { A } e; };\n"),
+    # overload suffixes (`f`, `f1`, `f2`...) next to members and functions that are literally called `f1`, in
+    # every declaration order; constructors and static methods as well
+    "cxx-overload-names": ("c++", "struct Chan { void send(const char *); void send1(); void send(int); void send(int, int); void send2(); };\n"
+                                  "struct Chan2 { void put(int); void put(long); void put1(); void put2(long); void put(char); };\n"
+                                  "struct Mk { Mk(); Mk(int); void new1(); static int make(); static int make(int); int make1(); Mk(int, int); };\n"
+                                  ),
+    "cxx-overload-fn-names": ("c++", "int over(int); int over1(); int over(double); int over(char, char); int over2();\n"),
     # every lazily emitted helper type is needed from inside a named namespace only
     "cxx-helpers-in-namespace": ("c++", "namespace wire { namespace v1 { struct Packet { unsigned len; unsigned char payload[]; }; } }\n"
                                         "namespace bits { struct Flags { unsigned a:3; unsigned b:9; }; }\n"
